@@ -39,3 +39,36 @@ pub async fn start_language_server<TCompilationProfile: CompilationProfile>(
         .map_err(|e| LocationFreeDiagnostic::from_error(e).wrap_vec())?;
     Ok(())
 }
+
+/// Verification hooks (only compiled with `--cfg isographlabs_isograph_verif`): re-exports of the
+/// request handlers and position helpers, so that an external harness can drive a real
+/// `LspState` without the stdio transport and the tokio loop.
+#[cfg(isographlabs_isograph_verif)]
+pub mod verif {
+    use std::collections::BTreeSet;
+
+    use common_lang_types::Diagnostic;
+    use isograph_schema::{CompilationProfile, IsographDatabase};
+
+    pub use crate::format::{char_index_to_position, on_format};
+    pub use crate::goto_definition::on_goto_definition;
+    pub use crate::hover::on_hover;
+    pub use crate::lsp_state::LspState;
+    pub use crate::semantic_tokens::{delta_line_delta_start, on_semantic_token_full_request};
+
+    /// What the server loop does when the debounce timer fires, minus the timer.
+    #[allow(clippy::mutable_key_type)]
+    pub fn publish_diagnostics<TCompilationProfile: CompilationProfile>(
+        db: &IsographDatabase<TCompilationProfile>,
+        new_diagnostics: &[Diagnostic],
+        sender: &crossbeam::channel::Sender<lsp_server::Message>,
+        old_uris_with_diagnostics: BTreeSet<lsp_types::Uri>,
+    ) -> BTreeSet<lsp_types::Uri> {
+        crate::diagnostic_notification::publish_new_diagnostics_and_clear_old_diagnostics(
+            db,
+            new_diagnostics,
+            sender,
+            old_uris_with_diagnostics,
+        )
+    }
+}
